@@ -84,7 +84,7 @@ CLAIMED['C18'] = dict(
           "registrations made on that class since its definition; a solve runs pre-processors of base classes before subclasses, in "
           "registration order, skipping factories that return nothing, each on its predecessor's output, then the unit, then the "
           "post-processors in the same order on the returned profile only; a registration applies to exactly the classes having "
-          "the registering class in their MRO (whenever defined)."),
+          "the registering class in their MRO (whenever defined). One unit solved repeatedly with changing factory answers, and in-place processors on base classes / on the next unit, are checked on the implementation (partial: not in the model)."),
     note=("Trusted: Coq kernel (no axioms); hand-written model coq/lib/Processors.v tied to unit.py by the correspondence run on real "
           "dynamically created Transport subclasses (alone and inside sequences); processors are modelled by the mark they leave."),
     ref="DESIGN.md section 4 C18")
@@ -96,7 +96,7 @@ CLAIMED['C14'] = dict(
           "pass); explicit settings False/0/True/angle are applied exactly; the global switch off disables entry rotation; the rule "
           "table regenerated from rotator/hookimpls.py is total and yields only 0/45/90/180; rotation preserves distances, area, "
           "perimeter and composes additively. The decision model is compared with roll_pass.rotation for every arrangement of up to "
-          "4 units (9120) and random longer ones; solved sequences count the turns actually made."),
+          "4 units (9120) and random longer ones; solved sequences count the turns actually made. Edit histories on one sequence object (rotation setting changed, units inserted/prepended/dropped between solves) are checked geometrically: the profile entering each pass is the predecessor's section turned exactly once by the angle the current arrangement calls for."),
     note=("Trusted: Coq kernel; Reals axioms for the geometry theorems; decision model coq/lib/Rotation.v tied by the correspondence run; "
           "translator T-A for the rule table; shapely.affinity.rotate sampled against the closed formula; nested sequences out of scope."),
     ref="DESIGN.md section 4 C14")
@@ -168,7 +168,7 @@ CLAIMED['C06'] = dict(
           "when elongation and out length stem from the same iterate, with the exact lag identity V_out/V_in = A_k/A_j otherwise; "
           "strain accumulates in passes and is reset by transports; the unit elongations multiply to the sequence's area ratio; "
           "rotators take no time and preserve area; n disk elements of 1/n add up to the parent. Six solved layouts (nested, "
-          "rotator, cooling pipe, disks, spread model, three-roll) are checked unit by unit."),
+          "rotator, cooling pipe, disks, spread model, three-roll) are checked unit by unit. Re-solved histories (another incoming profile incl. material/density/extra attributes, an opened gap, layouts starting with a transport or rotator) are checked too; a failing re-solve is compared with a fresh sequence."),
     note=("Trusted: Coq kernel; Reals axioms; translator T-A; the hand-over model (filter of public keys) is tied to the code by the "
           "oracle's identity/equality comparison of every public value between neighbouring units; tolerances 2x/3x iteration precision."),
     ref="DESIGN.md section 4 C06")
